@@ -39,7 +39,7 @@ impl Property for C15 {
         "C15"
     }
     fn rule(&self) -> &'static str {
-        "profile `determinism`: programs with 0-4 declares, several C columns and device reads (all three parser hash maps populated), some using random, half of them made static (no device reads); 2-8 repeated parses; 1-4 iterators over one TestCase stepped by a generated interleaving schedule, each with its own identically scripted driver and (via the seed hook) the same seed; two different device scripts. Oracle: (a) all parses equal (ParsedTestCase: PartialEq) and all bound TestCases equal incl. the order of `signals`; (b) every iterator, sequential or interleaved, yields the same items; (c) try_iter_static().is_ok() iff the model's static analysis finds no device read, and then its rows equal the (inputs, expected, line) projection of dynamic runs under both scripts. Non-trivial: >= 2 declares, or >= 2 interleaved iterators over >= 3 rows, or a static program with >= 3 rows; distinct by source + signals + schedule."
+        "profile `determinism`: programs with 0-4 declares, several C columns and device reads (all three parser hash maps populated), some using random, half of them made static (no device reads); 2-8 repeated parses; 1-4 iterators over one TestCase stepped by a generated interleaving schedule, each with its own identically scripted driver and (via the seed hook) the same seed; two different device scripts. Oracle: (a) all parses equal (ParsedTestCase: PartialEq) and all bound TestCases equal incl. the order of `signals`; (b) every iterator, sequential or interleaved, yields the same items; (c) try_iter_static().is_ok() iff the model's static analysis finds no device read, and then its rows equal the (inputs, expected, line) projection of dynamic runs under both scripts, and of a third run in which the driver's answer to one call is malformed (an entry dropped, repeated or of the wrong width) and the caller goes on after the error item: every item except the one that received the malformed answer equals the static one. Non-trivial: >= 2 declares, or >= 2 interleaved iterators over >= 3 rows, or a static program with >= 3 rows; distinct by source + signals + schedule."
     }
     fn cases(&self, tier: Tier) -> u64 {
         match tier {
@@ -48,7 +48,7 @@ impl Property for C15 {
         }
     }
     fn required_classes(&self) -> Vec<&'static str> {
-        vec!["declares>=2", "interleaved>=2", "static-program", "non-static-program", "random", "C-row", "reads-device"]
+        vec!["declares>=2", "interleaved>=2", "static-program", "non-static-program", "random", "C-row", "reads-device", "rows-after-malformed-answer"]
     }
     fn run(&self, s: &Streams) -> CaseOut {
         let mut out = CaseOut::new();
@@ -245,7 +245,20 @@ impl Property for C15 {
                 spec2.palette = Palette::Boundary;
                 spec2.zx = 64;
                 let dyn2 = run_real(tc, &built.sigs, &spec2, &opts);
-                for (which, d) in [("first", &base), ("second", &dyn2)] {
+                // "whatever the driver returns": a third script whose answer to one call is
+                // malformed (an entry dropped, repeated or of the wrong width). That row becomes
+                // an error item, the caller goes on, and every other item is still the static one.
+                let mut spec3 = spec.clone();
+                let ncalls = base.log.len();
+                let bad_call = if ncalls > 1 { 1 + dch.upto(ncalls - 1) } else { 0 };
+                let p = dch.upto(8);
+                spec3.deviate_at = Some((bad_call, [Deviation::Drop(p), Deviation::Duplicate(p), Deviation::Rewidth(p)][dch.upto(3)].clone()));
+                let dyn3 = run_real(tc, &built.sigs, &spec3, &RunOpts { continue_after_error: true, ..RunOpts { max_next: 120, seed: Some(seed), ..Default::default() } });
+                let static_ends_in_error = matches!(items.last(), Some(StaticItem::Err(_)));
+                for (which, d) in [("first", &base), ("second", &dyn2), ("malformed-answer", &dyn3)] {
+                    let third = which == "malformed-answer";
+                    // the item during which the malformed answer was given
+                    let excused = |k: usize| third && d.log_len_before.get(k).is_some_and(|b| *b <= bad_call) && d.log_len_before.get(k + 1).is_some_and(|a| bad_call < *a);
                     if d.ctor.is_some() {
                         out.fail("c15:static-vs-dynamic", format!("dynamic run under the {which} script could not be constructed: {:?}", d.ctor));
                         return out;
@@ -283,6 +296,10 @@ impl Property for C15 {
                                 }
                             }
                             (StaticItem::Err(_), RealItem::RuntimeErr(_)) => {}
+                            (StaticItem::Row(_), RealItem::RuntimeErr(_)) if excused(k) => {
+                                out.class("dynamic-row-failed-by-malformed-answer");
+                                out.class_if(k + 1 < items.len(), "rows-after-malformed-answer");
+                            }
                             (StaticItem::Panic(p), _) => {
                                 out.fail(p.key(), format!("static item {k} panicked: {p}"));
                                 return out;
@@ -292,6 +309,10 @@ impl Property for C15 {
                                 return out;
                             }
                         }
+                    }
+                    if third && static_ends_in_error {
+                        // the static run stops at its error item, this dynamic run goes on
+                        continue;
                     }
                     if d.items.len() != items.len() || d.ended != *ended {
                         out.fail(
